@@ -23,6 +23,9 @@ pub const ASSUMPTIONS: &[&str] = &[
 pub struct BusCase {
     pub signs: Vec<(u16, bool)>,
     pub ops: Vec<HOp>,
+    /// directed cases only: Repeat operations are carried out in full (up to 70000 repetitions) instead of 300
+    #[serde(default)]
+    pub deep: bool,
 }
 
 type Obs = (State, Option<SignType>, Vec<(u32, u32, Vec<u8>)>);
@@ -178,7 +181,7 @@ pub fn check_bus(c: &BusCase, st: &mut Stats) -> Result<(), String> {
             _ => (0, 0),
         };
         let (msgs, reps): (Vec<M>, u32) = match op {
-            HOp::Repeat { msg, n } => (vec![msg.clone()], (*n).min(300)),
+            HOp::Repeat { msg, n } => (vec![msg.clone()], (*n).min(if c.deep { 70_000 } else { 300 })),
             other => (expand(other, w, h), 1),
         };
         for m in &msgs {
@@ -260,7 +263,9 @@ fn bus_msg_strategy(addrs: Vec<u16>) -> impl Strategy<Value = M> {
 }
 
 fn bus_case_strategy(max_ops: usize) -> impl Strategy<Value = BusCase> {
-    (proptest::sample::subsequence(vec![0u16, 1, 2, 0x0100, 0x0200, 0xFFFF, 0xFFFE], 1..=4), any::<bool>())
+    // (addresses that collide with each other in the low 7 / 8 bits, and addresses equal to common data offsets and chunk
+    // counts - 0, 1, 3, 16, 32 - which is what the address field of the unaddressed data messages carries)
+    (proptest::sample::subsequence(vec![0u16, 1, 2, 3, 16, 32, 0x7F, 0x80, 0x81, 0x0100, 0x0200, 5, 133, 0xFFFF, 0xFFFE], 1..=4), any::<bool>())
         .prop_flat_map(move |(mut addrs, reverse)| {
             if reverse {
                 addrs.reverse();
@@ -280,7 +285,7 @@ fn bus_case_strategy(max_ops: usize) -> impl Strategy<Value = BusCase> {
             ];
             (Just(addrs), proptest::collection::vec(any::<bool>(), n), proptest::collection::vec(op, 1..max_ops))
         })
-        .prop_map(|(addrs, flips, ops)| BusCase { signs: addrs.into_iter().zip(flips).collect(), ops })
+        .prop_map(|(addrs, flips, ops)| BusCase { signs: addrs.into_iter().zip(flips).collect(), ops, deep: false })
 }
 
 // depth-bounded BFS over a two-sign bus ---------------------------------------------------------
@@ -329,7 +334,7 @@ fn bfs_two_signs(ctx: &Ctx, depth: u32, max_states: usize) {
                 if let Err(e) = pair.step(m, &messages[oi]) {
                     let mut ops: Vec<HOp> = node.history.iter().map(|&i| HOp::Msg(alphabet[i as usize].clone())).collect();
                     ops.push(HOp::Msg(m.clone()));
-                    let case = BusCase { signs: signs.clone(), ops };
+                    let case = BusCase { signs: signs.clone(), ops, deep: false };
                     ctx.fail("bfs-two-signs", serde_json::to_value(&case).unwrap(), e);
                     return;
                 }
@@ -373,6 +378,50 @@ fn bfs_two_signs(ctx: &Ctx, depth: u32, max_states: usize) {
 
 pub fn run(ctx: &Ctx) {
     bfs_two_signs(ctx, ctx.tier.pick(14, 18), ctx.tier.pick(600_000, 6_000_000));
+    // a neighbour with a very large buffer: one sign takes in thousands of chunks (left mid-transfer, parked by a reset
+    // request, or finished), then another sign is configured and loaded - it must behave as it does alone
+    let mut loaded: Vec<BusCase> = vec![];
+    for n in [4_090u32, 4_100, 8_200] {
+        for variant in 0..3u8 {
+            for order in [false, true] {
+                let mut signs = vec![(3u16, false), (6u16, true)];
+                if order {
+                    signs.reverse();
+                }
+                let mut ops = vec![
+                    HOp::Config { addr: 3, block: Block::Raw(tiny_block(12, 8)), fault: Fault::None },
+                    HOp::Msg(M::Req(3, crate::oracle::vsign::O_RECEIVE_PIXELS)),
+                    HOp::Msg(M::Data { off: 0, data: vec![0x11; 16] }),
+                    HOp::Repeat { msg: M::Data { off: 16, data: vec![0x22; 16] }, n },
+                ];
+                match variant {
+                    0 => {}
+                    1 => ops.push(HOp::Msg(M::Req(3, crate::oracle::vsign::O_START_RESET))),
+                    _ => ops.push(HOp::Msg(M::Count((n + 1) as u16))),
+                }
+                ops.extend([
+                    HOp::Config { addr: 6, block: Block::Real(5), fault: Fault::None },
+                    HOp::Pixels { addr: 6, pages: 2, seed: n as u64, fault: Fault::None, complete: true },
+                    HOp::Msg(M::Query(6)),
+                    HOp::Flip { addr: 6, steps: 6 },
+                    HOp::Pixels { addr: 6, pages: 1, seed: 1 + n as u64, fault: Fault::Drop(1), complete: true },
+                    HOp::Msg(M::Query(6)),
+                    HOp::Msg(M::Query(3)),
+                    HOp::Msg(M::Req(3, crate::oracle::vsign::O_FINISH_RESET)),
+                    HOp::Msg(M::Hello(3)),
+                ]);
+                loaded.push(BusCase { signs, ops, deep: true });
+            }
+        }
+    }
+    crate::engine::par_range(ctx, "neighbour-with-a-large-buffer", loaded.len() as u64, |i, st| {
+        let c = &loaded[i as usize];
+        check_bus(c, st).map_err(|m| (serde_json::to_value(c).unwrap(), m))?;
+        st.nontrivial_enumerated(1);
+        Ok(())
+    });
+    ctx.part_done("neighbour-with-a-large-buffer", true, json!({"cases": loaded.len(), "what": "sign 3 buffers 4090 / 4100 / 8200 chunks (mid-transfer, parked by start-reset, or counted), then sign 6 is configured, loaded and flipped"}));
+
     run_generated(ctx, "bus-history", ctx.tier.pick(30_000, 1_000_000), || bus_case_strategy(60), |c, st| check_bus(c, st));
     crate::engine::with_logging(|| {
         run_generated(ctx, "bus-history+logging", ctx.tier.pick(6_000, 200_000), || bus_case_strategy(60), |c, st| check_bus(c, st));
